@@ -45,16 +45,16 @@ theorem nbackDoStep_spec (I : FunI F ℝ) (g : ℝ → ℝ) (hd : Det I g J) (fo
     · rename_i sa va he
       simp only [Except.ok.injEq, Prod.mk.injEq] at h
       obtain ⟨rfl, rfl⟩ := h
-      obtain ⟨hv, hJ1, hext, hst, hcore⟩ := evalOwn_spec I g hd _ _ _ _ he hi.j
+      obtain ⟨hv, hJ1, hext, ⟨y, hst, hgy⟩, hcore⟩ := evalOwn_spec I g hd _ _ _ _ he hi.j
       refine ⟨⟨by show 0 < sa.ext.alam; rw [hext]; exact hi.alam, hJ1, by show sa.ext.fold = _; rw [hext]; exact hi.fold,
-        by show sa.ext.slope = _; rw [hext]; exact hi.slope⟩, ⟨_, hv, hst⟩, fun _ _ => Or.inr ?_, ?_, ?_⟩
+        by show sa.ext.slope = _; rw [hext]; exact hi.slope⟩, ⟨y, hv.trans hgy.symm, hst⟩, fun _ _ => Or.inr ?_, ?_, ?_⟩
       · rw [hv]; simp
       · show sa.core.nbEval = _; rw [hcore]
       · show sa.core.nbEvalMax = _; rw [hcore]
   · split at h
     · cases h
     · rename_i sa f he
-      obtain ⟨hv, hJ1, hext, hst, hcore⟩ := evalOwn_spec I g hd _ _ _ _ he hi.j
+      obtain ⟨hv, hJ1, hext, ⟨y, hst, hgy⟩, hcore⟩ := evalOwn_spec I g hd _ _ _ _ he hi.j
       have hcn : sa.core.nbEval = s.core.nbEval ∧ sa.core.nbEvalMax = s.core.nbEvalMax ∧ sa.core.tol = s.core.tol := by
         rw [hcore]; exact ⟨rfl, rfl, rfl⟩
       split at h
@@ -63,7 +63,7 @@ theorem nbackDoStep_spec (I : FunI F ℝ) (g : ℝ → ℝ) (hd : Det I g J) (fo
         simp only [Except.ok.injEq, Prod.mk.injEq] at h
         obtain ⟨rfl, rfl⟩ := h
         have hdec := (ScalarReal.leb_iff _ _).1 hdec
-        refine ⟨⟨hi.alam, hJ1, hi.fold, hi.slope⟩, ⟨_, hv, hst⟩, fun _ _ => Or.inl ?_, hcn.1, hcn.2.1⟩
+        refine ⟨⟨hi.alam, hJ1, hi.fold, hi.slope⟩, ⟨y, hv.trans hgy.symm, hst⟩, fun _ _ => Or.inl ?_, hcn.1, hcn.2.1⟩
         have h4 : (0 : ℝ) ≤ Scalar.ofRat 1 10000 := by simp
         have : s.ext.alam * Scalar.ofRat 1 10000 * s.ext.slope ≤ 0 := by
           rw [hi.slope]
@@ -74,7 +74,7 @@ theorem nbackDoStep_spec (I : FunI F ℝ) (g : ℝ → ℝ) (hd : Det I g J) (fo
         · -- first backtrack
           simp only [Except.ok.injEq, Prod.mk.injEq] at h
           obtain ⟨rfl, rfl⟩ := h
-          refine ⟨⟨?_, hJ1, hi.fold, hi.slope⟩, ⟨_, hv, hst⟩, fun ht hf => ?_, hcn.1, hcn.2.1⟩
+          refine ⟨⟨?_, hJ1, hi.fold, hi.slope⟩, ⟨y, hv.trans hgy.symm, hst⟩, fun ht hf => ?_, hcn.1, hcn.2.1⟩
           · exact nbackFirst_pos _ _
           · exfalso
             have : sa.core.tol = true := ht
@@ -82,7 +82,7 @@ theorem nbackDoStep_spec (I : FunI F ℝ) (g : ℝ → ℝ) (hd : Det I g J) (fo
         · -- subsequent backtracks
           simp only [Except.ok.injEq, Prod.mk.injEq] at h
           obtain ⟨rfl, rfl⟩ := h
-          refine ⟨⟨?_, hJ1, hi.fold, hi.slope⟩, ⟨_, hv, hst⟩, fun ht hf => ?_, hcn.1, hcn.2.1⟩
+          refine ⟨⟨?_, hJ1, hi.fold, hi.slope⟩, ⟨y, hv.trans hgy.symm, hst⟩, fun ht hf => ?_, hcn.1, hcn.2.1⟩
           · exact nbackNext_pos _ _ hi.alam
           · exfalso
             have : sa.core.tol = true := ht
